@@ -336,6 +336,68 @@ pub fn generate(prop: &str, thorough: bool, rng: &mut Rng) -> Case {
             ops.push(Op::Reopen);
             clients.push(ops);
         }
+        "C10" if rng.chance(1, 4) => {
+            // wrap variant: a one-page tombstone log (256 slots) that wraps. Deletions beyond the log's capacity are
+            // outside the claim (removed values may come back; `wrap` excuses those), but "a later insert of the key
+            // is not hidden by the old tombstone" still holds: keys deleted in one life and re-inserted and flushed in
+            // the next must be readable in the life after that.
+            let keys = 8 + rng.below(9) as u64;
+            cfg.insert("keys".into(), keys as i64);
+            cfg.insert("tomb".into(), 1);
+            cfg.insert("policy".into(), 1);
+            cfg.insert("comp".into(), 0);
+            cfg.insert("wrap".into(), 1);
+            cfg.insert("block_pages".into(), 8);
+            cfg.insert("blocks".into(), 24 + rng.below(7) as i64);
+            cfg.insert("mem_cap".into(), 4);
+            cfg.insert("mem_shards".into(), 1);
+            cfg.insert("inmem_mod".into(), 0);
+            cfg.insert("ondisk_mod".into(), 0);
+            cfg.insert("max_steps".into(), 20_000_000);
+            if rng.chance(1, 2) {
+                cfg.insert("flushers".into(), 1);
+            }
+            fit_buffers(&mut cfg, rng, false);
+            let mut ops = vec![];
+            for k in 0..keys {
+                ops.push(Op::Insert { k, ver: 0, w: (k % 2) as u32, loc: 0, hold: false });
+            }
+            ops.push(Op::Wait);
+            let mut filler = 1000u64;
+            let mut deleted: Vec<u64> = vec![];
+            for cycle in 0..2 + rng.below(2) {
+                // keys deleted in an earlier life come back
+                for k in deleted.drain(..) {
+                    if rng.chance(3, 4) {
+                        ops.push(Op::Insert { k, ver: 0, w: 1, loc: 0, hold: false });
+                    }
+                }
+                let n = if cycle == 0 { 230 + rng.below(120) } else { [0usize, 20, 150, 280][rng.below(4)] };
+                for _ in 0..n {
+                    ops.push(Op::Delete { k: filler });
+                    filler += 1;
+                }
+                for _ in 0..1 + rng.below(4) {
+                    let k = rng.below(keys as usize) as u64;
+                    ops.push(if rng.chance(1, 2) { Op::Remove { k } } else { Op::Delete { k } });
+                    if !deleted.contains(&k) {
+                        deleted.push(k);
+                    }
+                }
+                for _ in 0..rng.below(40) {
+                    ops.push(Op::Delete { k: filler });
+                    filler += 1;
+                }
+                ops.push(Op::Wait);
+                ops.push(if rng.chance(2, 3) { Op::Reopen } else { Op::Ctl { what: 30, arg: 0 } });
+            }
+            for k in deleted.drain(..) {
+                ops.push(Op::Insert { k, ver: 0, w: 1, loc: 0, hold: false });
+            }
+            ops.push(Op::Wait);
+            ops.push(Op::Reopen);
+            clients.push(ops);
+        }
         "C10" => {
             let keys = 16 + rng.below(32) as u64;
             cfg.insert("keys".into(), keys as i64);
@@ -377,7 +439,7 @@ pub fn generate(prop: &str, thorough: bool, rng: &mut Rng) -> Case {
                 for _ in 0..real {
                     let k = rng.below(keys as usize) as u64;
                     ops.push(if rng.chance(1, 2) { Op::Remove { k } } else { Op::Delete { k } });
-                    if rng.chance(1, 5) {
+                    if rng.chance(1, 3) {
                         ops.push(Op::Insert { k, ver: 0, w: 1, loc: 0, hold: false });
                     }
                     if rng.chance(1, 8) {
